@@ -9,8 +9,11 @@ use serde_json::{json, Value};
 
 pub fn crash_history_strategy(max: usize) -> impl Strategy<Value = Vec<Op>> {
     let op = prop_oneof![
-        20 => mut_op_strategy(),
-        1 => Just(Op::MakeReadOnly),
+        200 => mut_op_strategy(),
+        10 => Just(Op::MakeReadOnly),
+        // a batch whose oplog entry alone exceeds the 64 KiB threshold that forces a flush, and one
+        // that takes the log across the 252/253 varint boundary
+        1 => prop_oneof![Just(Op::Big(830)), Just(Op::Big(251))],
     ];
     prop::collection::vec(op, 0..max)
 }
